@@ -112,6 +112,7 @@ type FnVerifier struct {
 	phiEntry  map[*ssa.Phi]Val // entry-merged value of loop-head phis (for reference)
 
 	defers []*ssa.Defer
+	rangeDom0 map[*ssa.Range]string // map range loops: domain of the map at the range statement
 	promo  map[string]*Val // single-store local cells (ref term -> stored value; nil until the store is executed)
 	names  map[string]Val // parameter names
 	params []Val
@@ -479,6 +480,9 @@ func (fv *FnVerifier) havocAll(st *State) {
 		if strings.HasPrefix(k, "g:") && fv.arrBase[k] {
 			continue // read-only globals
 		}
+		if strings.HasPrefix(k, "ghost:") {
+			continue // ghost state is not memory
+		}
 		delete(st.heap, k)
 	}
 	na := fv.q.fresh("alloc")
@@ -689,12 +693,18 @@ func (fv *FnVerifier) posString(pos token.Pos) string {
 
 // oblige registers goal (must hold whenever cond holds).
 func (fv *FnVerifier) oblige(kind, label, cond, goal string, pos token.Pos, detail string) *Obligation {
-	goal = fv.skolemizeGoal(goal)
 	g := goal
 	if cond != "" && cond != "true" {
 		g = "(=> " + cond + " " + goal + ")"
 	}
 	o := &Obligation{Name: fv.oblName(kind, label), Kind: kind, Goal: g, Pos: fv.posString(pos), Detail: detail, FnName: fv.fnShort, Ctx: &ReplayCtx{fv: fv}}
+	// second formulation, tried when the solvers do not answer the first: top-level universals skolemised
+	if alt := fv.skolemizeGoal(goal); alt != goal {
+		o.AltGoal = alt
+		if cond != "" && cond != "true" {
+			o.AltGoal = "(=> " + cond + " " + alt + ")"
+		}
+	}
 	if goal == "true" {
 		o.Status, o.Solver = "unsat", "syntactic"
 	}
